@@ -1,6 +1,7 @@
 package sym
 
 import (
+	"os"
 	"fmt"
 	"strings"
 	"go/constant"
@@ -203,6 +204,9 @@ type HostFunc struct {
 
 func (e *Engine) call(fn *ssa.Function, args []Value, env []Value) Value {
 	name := fn.String()
+	if os.Getenv("VERIF_DEBUGCALL") != "" && strings.Contains(name, os.Getenv("VERIF_DEBUGCALL")) {
+		fmt.Fprintf(os.Stderr, "CALL %s summaries=%d tolerant=%d inSummary=%v\n", name, len(e.summaries), e.tolerant, e.inSummary)
+	}
 	if len(e.summaries) > 0 && e.tolerant == 0 {
 		sv, ok := e.sumCache[fn]
 		if !ok {
